@@ -86,6 +86,16 @@ M = {
    "    let walkdir = WalkDir::new(path);", "    let walkdir = WalkDir::new(path).follow_links(true);", 'C12 C15'),
  'c12-no-workdir-prune': ('src/fs.rs',
    "            .filter_entry(|e| !is_work_dir(e))\n", "", 'C12 C15'),
+ 'c15-extension-eq': ('src/domain.rs',
+   "        extensions.iter().any(|ext| file_name.ends_with(ext))", "        extensions.iter().any(|ext| file.extension().is_some_and(|e| format!(\".{}\", e.to_string_lossy()) == *ext))", 'C15'),
+ 'c15-no-leading-dot': ('src/config/ir.rs',
+   "                    if ext.starts_with('.') {\n                        ext\n                    } else {\n                        format!(\".{}\", ext)\n                    }", "                    ext", 'C15'),
+ 'c15-empty-list-matches-nothing': ('src/config/ir.rs',
+   "        .filter(|extensions| !extensions.is_empty())\n", "", 'C15'),
+ 'c15-include-dirs': ('src/fs.rs',
+   "                        .filter(|path| path.is_file())\n", "", 'C15'),
+ 'c15-prune-top-level-only': ('src/fs.rs',
+   "            .filter_entry(|e| !is_work_dir(e))", "            .filter_entry(|e| !(e.depth() <= 1 && is_work_dir(e)))", 'C15'),
 }
 
 def sh(cmd, **kw):
@@ -115,5 +125,6 @@ def main():
     finally:
         sh('git -C /repo checkout -- .')
         sh('rm -rf /verif/replays/*/found')
+        sh('git -C /verif checkout -- evidence 2>/dev/null')
 
 main()
